@@ -776,3 +776,18 @@ package cache
 //@       (old(has(labeledKeys, l)) && !(exists j int :: 0 <= j && j <= rangeindex && labels[j] == l))
 //@   loop 1 invariant [C15.cut.inv.others] forall l string :: has(labeledKeys, l) ==> labeledKeys[l] == old(labeledKeys[l])
 //@   replay cutkeys
+
+// invalidateByLabels: deletes every key of the cut labels from every deleter; the count is the number of Delete
+// calls that reported success; on a deleter failure the unprocessed keys are put back - without panicking.
+
+//@ func (*InvalidationIndex).invalidateByLabels
+//@   props C15
+//@   requires ctx != nil && labeledKeys != nil
+//@   requires forall j int :: 0 <= j && j < len(deleters) ==> deleters[j] != nil
+//@   ensures [C15.count] result0 == delok() - old(delok())
+//@   ensures [C15.err] result1 != nil ==> !errIs(result1, ErrNotFound) && calls("Deleter.Delete") >= 1
+//@       && result1 == res("Deleter.Delete", calls("Deleter.Delete"), 0)
+//@   loop 1 invariant [C15.inv.l1] cnt == delok() - old(delok()) && cutKeys != nil && deleted != nil
+//@   loop 2 invariant [C15.inv.l2] cnt == delok() - old(delok()) && cutKeys != nil && deleted != nil
+//@   loop 3 invariant [C15.inv.l3] cnt == delok() - old(delok()) && cutKeys != nil && deleted != nil
+//@   replay invalidate
